@@ -1,4 +1,4 @@
-import TM.Next
+import TM.Accept
 /-! Line-protocol acceptor for scheduler traces (slice S).  The successor function is `TM.next`,
     for which `TM.next_sound` is proved: every accepted trace is a `TM.Run` of the relation the
     property theorems quantify over.  Protocol: DESIGN.md appendix A.1.
@@ -27,50 +27,11 @@ def mkCfg (info : Array NodeInfo) (maxc : Nat) : Cfg :=
     seq := fun i => (get i).seq, res := fun i => (get i).res, active := fun i => (get i).active,
     fails := fun i => (get i).fails, maxc := maxc }
 
-def dedup (l : List St) : List St :=
-  l.foldl (fun acc s => if acc.contains s then acc else acc ++ [s]) []
+/-! The acceptor itself (`closeSt`, `stepObs`, `Obs`) lives in `TM/Accept.lean`, where `accept_sound` is
+    proved: a state the acceptor is left with is reached by a run whose labels are explained by the
+    observations.  This file only parses the protocol and folds `stepObs` over the observations. -/
 
-def silentSucc (cfg : Cfg) (s : St) : List St :=
-  next cfg s .tau ++ s.runnable.flatMap (fun n => next cfg s (.skip n))
-
-/-- closure under silent steps (`tau`, `skip`), bounded by fuel (runs are finite: C09_bound) -/
-def closure (cfg : Cfg) : Nat → List St → List St → List St
-  | 0, seen, _ => seen
-  | fuel+1, seen, frontier =>
-    match frontier with
-    | [] => seen
-    | _ =>
-      let new := dedup ((frontier.flatMap (silentSucc cfg)).filter (fun s => !seen.contains s))
-      closure cfg fuel (seen ++ new) new
-
-def close (cfg : Cfg) (ss : List St) : List St :=
-  let ss := dedup ss
-  closure cfg (64 * cfg.nodes.length + 64) ss ss
-
-inductive Obs where
-  | dispatch (n : Option Node) (k : Kind)
-  | inline (n : Node)
-  | wait (k : Kind) (m : Mode) (D : List Node)
-  | ret
-  | raise (n : Option Node)
-  | abort     -- the call raised something that is not a node failure: only the prefix is judged
-
-/-- all model states reachable from `ss` (already closed) by the visible event, then closed again -/
-def stepObs (cfg : Cfg) (ss : List St) : Obs → List St
-  | .dispatch (some n) k => close cfg (ss.flatMap fun s => next cfg s (.dispatch n k))
-  | .dispatch none k =>     -- a ticket whose node never reported entry: any candidate
-    close cfg (ss.flatMap fun s => s.runnable.flatMap fun n => next cfg s (.dispatch n k))
-  | .inline n =>
-    if cfg.fails n then close cfg (ss.flatMap fun s => next cfg s (.inlineFail n))
-    else close cfg (ss.flatMap fun s => next cfg s (.inline n))
-  | .wait k m D =>
-    let F := D.filter cfg.fails
-    if F.isEmpty then close cfg (ss.flatMap fun s => next cfg s (.wait k m D))
-    else dedup (ss.flatMap fun s => F.flatMap fun d => next cfg s (.waitFail k m D d))
-  | .ret => dedup (ss.flatMap fun s => next cfg s .ret)
-  | .raise (some n) => ss.filter fun s => s.pc = .err n
-  | .raise none => []
-  | .abort => ss
+def close (cfg : Cfg) (ss : List St) : List St := closeSt cfg ss
 
 def parseOptNode (s : String) : Option Node := if s == "?" then none else s.toNat?
 
